@@ -33,6 +33,7 @@ MathDemanded(r, x) ==
     [] r.f = "log2" -> x # 0
     [] r.f \in {"power_of_2", "shifted_mask"} -> x <= MaxExp /\ Rep(r.S, Pow2(x))
     [] r.f = "interval_distance" -> r.a <= r.b /\ r.c <= x
+    [] r.f \in ConvFns -> Rep(r.D, x)
     [] OTHER -> TRUE
 OutcomeMathNarrow(r, x) ==
   IF ~MathDemanded(r, x) THEN {"value", "nothing"}     \* exact result not representable: no exception, else free
@@ -70,6 +71,17 @@ OutcomeExtractInt(ty, s) ==
   ELSE IF RepZ(ty, t.z) THEN {"value"} ELSE {"nothing"}
 (* operator>> for std::string: one white-space delimited word, then the end of the string *)
 WordToken(s) == LET t == DropSpaces(s) IN [ok |-> t # <<>> /\ \A i \in 1..Len(t) : ~IsSpace(t[i]), w |-> t]
+(* operator>> alone (io::extract, io::expect): optional white space, optional sign, the maximal run of
+   digits; what follows is not read *)
+RECURSIVE DigitRun(_)
+DigitRun(s) == IF s # <<>> /\ IsDigit(Head(s)) THEN <<Head(s)>> \o DigitRun(Tail(s)) ELSE <<>>
+IntPrefix(s) ==
+  LET t == DropSpaces(s)
+      sign == IF t # <<>> /\ Head(t) \in {43, 45} THEN Head(t) ELSE 0
+      ds == DigitRun(IF sign = 0 THEN t ELSE Tail(t))
+  IN [ok |-> ds # <<>>,
+      z |-> IF ds = <<>> THEN Zero
+            ELSE LET m == DecimalN(ds, <<>>) IN [s |-> IF m = <<>> THEN 0 ELSE IF sign = 45 THEN -1 ELSE 1, m |-> m]]
 OutcomeExtractString(s) == IF WordToken(s).ok THEN {"value"} ELSE {"nothing"}
 
 \* ------------------------------------------------------------------ UTF-8 (narrow / widen under C.utf8)
@@ -112,7 +124,11 @@ OneOf(b) == IF b THEN {"value"} ELSE {"nothing"}
 Registered == {"at_optional", "maybe_front", "maybe_back", "pop_back", "pop_front", "find_opt", "find_opt_mapped",
                "grid_at_optional", "from_string", "dynamic", "dynamic_cross", "dynamic_any", "from_range",
                "extract_int", "extract_uint", "extract_string", "stream_to_string", "read_chars", "runtime_index",
-               "narrow", "widen", "string_id", "file_size", "path_fn", "options_parse", "parse_string"}
+               "narrow", "widen", "string_id", "file_size", "path_fn", "options_parse", "parse_string",
+               \* extension round
+               "io_get", "io_peek", "io_extract_int", "io_expect_int", "extract_enum", "enum_array_at", "parse_help",
+               "grammar_parse_string", "optional_from", "optional_to_exception", "optional_to_pointer", "optional_copy_value",
+               "optional_from_pointer", "optional_deref", "getenv", "args", "gmtime"}
 
 Outcome(r) ==
   CASE r.f = "at_optional" -> OneOf(r.i < Len(r.xs))
@@ -135,6 +151,39 @@ Outcome(r) ==
     [] r.f = "file_size" -> OneOf(r.kind = "file")
     [] r.f = "path_fn" -> {"value"}
     [] r.f = "options_parse" -> {"value", "failure"}
+    \* ---- extension round (the sentence of the documentation that is used is quoted)
+    (* io::get / peek: "Reads [Peeks at] a character from _stream. Returns an empty optional for end-of-file."
+       Nothing is said about a stream that is not good: not constrained then. *)
+    [] r.f \in {"io_get", "io_peek"} -> IF r.eofbit \/ r.failbit \/ r.badbit THEN {"value", "nothing"} ELSE OneOf(r.rest # <<>>)
+    (* io::extract: "Uses operator>> to extract a value ... If extracting the value fails, an empty optional is returned." *)
+    [] r.f = "io_extract_int" -> LET t == IntPrefix(r.s) IN OneOf(t.ok /\ RepZ("i32", t.z))
+    (* io::expect returns the stream: always a value; the failbit is the value (see ValueOk) *)
+    [] r.f = "io_expect_int" -> {"value"}
+    (* extract_from_string<Enum> with operator>> = enum_::input: "Uses enum_::from_string to read an enum";
+       extract_from_string: "The string has to be consumed completely." *)
+    [] r.f = "extract_enum" -> OneOf(WordToken(r.s).ok /\ \E i \in 1..Len(r.names) : r.names[i] = WordToken(r.s).w)
+    [] r.f = "enum_array_at" -> {"value"}
+    (* options::parse_help: "If its switch and nothing else is specified, the usage string is gathered from _parser
+       and returned.  Otherwise, if the switch of _help was not specified, then the result of applying _parser to
+       _args is returned."  (plain = the recorded outcome class of options::parse on the same arguments) *)
+    [] r.f = "parse_help" -> IF r.argv = <<r.help>> THEN {"help"}
+                             ELSE IF \A i \in 1..Len(r.argv) : r.argv[i] # r.help THEN {r.plain}
+                             ELSE {"help", "value", "failure"}
+    [] r.f = "grammar_parse_string" -> {"value", "failure"}
+    (* optional::from: "If _optional is set to x, then x is returned. Otherwise, the result of _default is returned." *)
+    [] r.f = "optional_from" -> {"value"}
+    (* optional::to_exception: "Otherwise, the result of _make_exception is thrown as an exception." *)
+    [] r.f = "optional_to_exception" -> IF r.has THEN {"value"} ELSE {"exception:" \o r.exc}
+    (* optional::to_pointer: "If _optional is empty, returns nullptr. Otherwise, returns the address of the referenced object" *)
+    [] r.f = "optional_to_pointer" -> {"value"}
+    (* copy_value / from_pointer ("If _pointer is the null pointer, the result will be empty") / deref *)
+    [] r.f \in {"optional_copy_value", "optional_from_pointer", "optional_deref"} -> OneOf(r.has)
+    (* fcppt::getenv: "Gets an optional value from the environment." *)
+    [] r.f = "getenv" -> OneOf(r.set)
+    (* fcppt::args: "Copy main arguments into a container"; args_from_second: "... starting from the second" *)
+    [] r.f = "args" -> {"value"}
+    (* time::gmtime: "\throw std::runtime_error on failure." *)
+    [] r.f = "gmtime" -> {"value", "exception:std::runtime_error"}
     [] r.f = "parse_string" ->
          IF r.g = "int" /\ r.sk = "none"
          THEN LET neg == r.s # <<>> /\ Head(r.s) = 45
@@ -175,5 +224,20 @@ ValueOk(r) ==
     [] r.f = "path_fn" -> (r.op = "stem_ext" /\ r.plain) => r.v = FileName(r.s)    \* stem ++ extension = file name
     [] r.f = "parse_string" -> (r.g \in {"int", "uint"} /\ r.sk = "none") =>
                                  (Len(r.v) = 1 /\ r.v[1] = IntToken(r.s).z)
+    [] r.f \in {"io_get", "io_peek"} -> (~(r.eofbit \/ r.failbit \/ r.badbit)) => r.v = <<r.rest[1]>>
+    [] r.f = "io_extract_int" -> Len(r.v) = 1 /\ r.v[1] = IntPrefix(r.s).z
+    (* io::expect: "If the value read is unequal to _value, the failbit is set" (and operator>> sets it if nothing is read) *)
+    [] r.f = "io_expect_int" -> LET t == IntPrefix(r.s) IN
+                                r.v = <<IF t.ok /\ RepZ("i32", t.z) /\ t.z = ZOfInt(r.expected) THEN 0 ELSE 1>>
+    [] r.f = "extract_enum" -> \E i \in 1..Len(r.names) : r.names[i] = WordToken(r.s).w /\ r.v = <<i - 1>>
+    [] r.f = "enum_array_at" -> r.v = <<10 * r.i>>
+    [] r.f = "optional_from" -> r.v = <<IF r.has THEN r.x ELSE r.d>>
+    [] r.f = "optional_to_exception" -> r.v = <<r.x>>
+    [] r.f = "optional_to_pointer" -> r.v = (IF r.has THEN <<1, 1>> ELSE <<0, 0>>)
+    [] r.f \in {"optional_copy_value", "optional_from_pointer", "optional_deref"} -> r.v = <<r.x>>
+    [] r.f = "getenv" -> r.v = r.val
+    [] r.f = "args" -> r.v = (IF r.second THEN (IF r.argv = <<>> THEN <<>> ELSE Tail(r.argv)) ELSE r.argv)
+    (* seconds, minutes, hours and week day of a UTC time stamp (1970-01-01 was a Thursday) *)
+    [] r.f = "gmtime" -> r.v = <<r.t % 60, (r.t \div 60) % 60, (r.t \div 3600) % 24, (4 + (r.t \div 86400)) % 7>>
     [] OTHER -> TRUE
 =============================================================================
